@@ -86,10 +86,8 @@ const NEEDED: &[&str] = &[
     "tamper/algorithm-name-with-extra-labels",
     "tamper/algorithm-label-with-valid-prefix",
     "unsigned-after-rejected-first-still-rejected",
-    "genuine-first-after-rejected-first-verified",
     "genuine-answer-after-rejected-answer-verified",
     "second-rejected-message-before-first-answer",
-    "history-continues-after-rejected-first",
     "sequence-answer-after-failed-push",
     "client-wrapper/answer-to-last-of-several-compositions",
     "client-wrapper/answer-to-earlier-composition",
@@ -107,6 +105,13 @@ fn health(c: &BTreeMap<String, u64>, _thorough: bool) -> Result<(), String> {
     for k in NEEDED {
         if c.get(*k).copied().unwrap_or(0) == 0 {
             return Err(format!("class {k} is empty: the check would be vacuous there"));
+        }
+    }
+    // after a rejection a client sequence may go on (and then has to accept
+    // the genuine first answer) or fail for good: either way the case ran
+    for (a, b) in [("genuine-first-after-rejected-first-verified", "sequence-fails-for-good-after-rejection"), ("history-continues-after-rejected-first", "sequence-fails-for-good-after-rejection")] {
+        if c.get(a).copied().unwrap_or(0) == 0 && c.get(b).copied().unwrap_or(0) == 0 {
+            return Err(format!("classes {a} and {b} are both empty: the check would be vacuous there"));
         }
     }
     for a in ["hmac-sha1", "hmac-sha256", "hmac-sha384", "hmac-sha512"] {
